@@ -484,11 +484,9 @@ def observer_canon(case, ol, outs):
 
 def canon_summaries(case, ol):
     """ObserverList.serializeSummaries as the model prints it: [0, lines] with a
-    line [0, locale id] (header) or [1, code points], or [1, exception code];
-    None when the list counted something for a file without locale (None
-    sorts/prints differently and is outside Model/Summaries.v)"""
-    if any(loc is None for loc in ol.summary.keys()):
-        return None
+    line [0, locale id] (header) or [1, code points], or [1, exception code].
+    A file without locale (None, id 0) gets no header and makes `sorted` raise
+    TypeError when another locale was counted too: modelled."""
     try:
         text = ol.serializeSummaries()
     except Exception as e:  # noqa
@@ -692,8 +690,9 @@ def run_observer(chk, model):
         ol, outs = observer_impl(c)
         impl.append(observer_canon(c, ol, outs))
         summ.append(canon_summaries(c, ol))
-        chk.hist("summaries_text", "locale-None (not compared)" if summ[-1] is None else
-                 "raise%d" % summ[-1][1] if summ[-1][0] else "lines%d" % (len(summ[-1][1]) // 5 * 5))
+        chk.hist("summaries_text", "raise%d" % summ[-1][1] if summ[-1][0]
+                 else "lines%d" % (len(summ[-1][1]) // 5 * 5))
+        chk.hist("summaries_text_locale_None", any(loc is None for loc in ol.summary.keys()))
         if c["strict"] and c["prefix_free"]:
             summaries_oracle(chk, c, ol)
         chk.count(("obs", c["files"], c["quiet"], c["confs"], c["events"]))
